@@ -737,22 +737,33 @@ Record dump := mkD {
   d_arrs : list (list value);
   d_tls : list (list nat);
   d_objsig : list nat;     (* identity classes (Python `is`) of the droplets at [roots] *)
-  d_stosig : list nat      (* memory-sharing classes (np.shares_memory) of their records, then of all array rows *)
+  d_stosig : list nat;     (* memory-sharing classes (np.shares_memory) of their records, then of all array rows *)
+  d_tvars : list (list Q); (* content of the caller's lists of times *)
+  d_tlsig : list nat       (* identity classes (`is`) of the times lists: time courses, tracks, caller lists *)
 }.
 
 (* an array row does not know the droplet class *)
 Definition strip_cls (v : value) : value := mkV 0 (pos v) (rad v) (extra v).
 
+(* every position holding a times list object, in a fixed order *)
+Definition tl_roots (h : heap) : list tloc := map tc_tl (tcs h) ++ map tr_tl (trs h) ++ tvars h.
+
+Definition pair_opt {A B} (a : option A) (b : option B) : option (A * B) :=
+  match a, b with Some x, Some y => Some (x, y) | _, _ => None end.
+
 Definition dump_of (h : heap) : option dump :=
   match vals_of h (hnd h),
         mapM (fun e => option_map (pair (e_dtype e)) (vals_of h (e_mem e))) (ems h),
-        mapM (fun t => option_map (pair (tr_times t)) (vals_of h (tr_drops t))) (trs h),
+        mapM (fun t => pair_opt (times_of h (tr_tl t)) (vals_of h (tr_drops t))) (trs h),
         mapM (mapM (fun s => option_map strip_cls (nth_error (store h) s))) (arrs h),
-        mapM (obj_of h) (roots h) with
-  | Some dh, Some de, Some dt, Some da, Some ss =>
-    Some (mkD dh de (map (fun t => (tc_times t, tc_ems t)) (tcs h)) dt da (tls h)
-              (labels Nat.eqb (roots h)) (labels Nat.eqb (ss ++ concat (arrs h))))
-  | _, _, _, _, _ => None
+        mapM (obj_of h) (roots h),
+        mapM (fun t => option_map (fun ts => (ts, tc_ems t)) (times_of h (tc_tl t))) (tcs h),
+        mapM (times_of h) (tvars h) with
+  | Some dh, Some de, Some dt, Some da, Some ss, Some dc, Some dv =>
+    Some (mkD dh de dc dt da (tls h)
+              (labels Nat.eqb (roots h)) (labels Nat.eqb (ss ++ concat (arrs h)))
+              dv (labels Nat.eqb (tl_roots h)))
+  | _, _, _, _, _, _, _ => None
   end.
 
 (* ---- boolean equality of dumps (exact: Qeq_bool on every number) ---- *)
@@ -786,7 +797,9 @@ Definition dump_eqb (a b : dump) : bool :=
   && list_eqb (list_eqb value_eqb) (d_arrs a) (d_arrs b)
   && list_eqb (list_eqb Nat.eqb) (d_tls a) (d_tls b)
   && list_eqb Nat.eqb (d_objsig a) (d_objsig b)
-  && list_eqb Nat.eqb (d_stosig a) (d_stosig b).
+  && list_eqb Nat.eqb (d_stosig a) (d_stosig b)
+  && list_eqb (list_eqb Qeq_bool) (d_tvars a) (d_tvars b)
+  && list_eqb Nat.eqb (d_tlsig a) (d_tlsig b).
 
 Definition errk_eqb (a b : errk) : bool :=
   match a, b with
@@ -826,20 +839,25 @@ Record ddelta := mkDD {
   dd_arrs : tdelta (list value);
   dd_tls : tdelta (list nat);
   dd_objsig : option (list nat);
-  dd_stosig : option (list nat)
+  dd_stosig : option (list nat);
+  dd_tvars : tdelta (list Q);
+  dd_tlsig : option (list nat)
 }.
 
 Definition apply_delta (d : dump) (dd : ddelta) : option dump :=
   match patch (d_hnd d) (dd_hnd dd), patch (d_ems d) (dd_ems dd), patch (d_tcs d) (dd_tcs dd),
-        patch (d_trs d) (dd_trs dd), patch (d_arrs d) (dd_arrs dd), patch (d_tls d) (dd_tls dd) with
-  | Some a, Some b, Some c, Some e, Some f, Some g =>
+        patch (d_trs d) (dd_trs dd), patch (d_arrs d) (dd_arrs dd), patch (d_tls d) (dd_tls dd),
+        patch (d_tvars d) (dd_tvars dd) with
+  | Some a, Some b, Some c, Some e, Some f, Some g, Some tv =>
     Some (mkD a b c e f g
               (match dd_objsig dd with Some x => x | None => d_objsig d end)
-              (match dd_stosig dd with Some x => x | None => d_stosig d end))
-  | _, _, _, _, _, _ => None
+              (match dd_stosig dd with Some x => x | None => d_stosig d end)
+              tv
+              (match dd_tlsig dd with Some x => x | None => d_tlsig d end))
+  | _, _, _, _, _, _, _ => None
   end.
 
-Definition empty_dump : dump := mkD [] [] [] [] [] [] [] [].
+Definition empty_dump : dump := mkD [] [] [] [] [] [] [] [] [] [].
 
 Definition step_obs := (outcome * option ddelta)%type.
 
@@ -883,10 +901,17 @@ Definition abs_hnd (h : heap) (i : nat) : option value :=
   match nth_error (hnd h) i with Some l => val_of h l | None => None end.
 Definition abs_em (h : heap) (c : cid) : option (list value) :=
   option_map (fun e => abs_vals h (e_mem e)) (nth_error (ems h) c).
+(* content of a times list object (a dangling reference would read as []; [wf] heaps have none) *)
+Definition tl_get (h : heap) (tl : tloc) : list Q :=
+  match times_of h tl with Some ts => ts | None => [] end.
+Definition tc_times (h : heap) (t : tcourse) : list Q := tl_get h (tc_tl t).
+Definition tr_times (h : heap) (k : track) : list Q := tl_get h (tr_tl k).
 Definition abs_tr (h : heap) (k : nat) : option (list (Q * value)) :=
-  option_map (fun t => combine (tr_times t) (abs_vals h (tr_drops t))) (nth_error (trs h) k).
+  option_map (fun t => combine (tr_times h t) (abs_vals h (tr_drops t))) (nth_error (trs h) k).
 Definition abs_tc (h : heap) (t : nat) : option (list (Q * option (list value))) :=
-  option_map (fun x => combine (tc_times x) (map (abs_em h) (tc_ems x))) (nth_error (tcs h) t).
+  option_map (fun x => combine (tc_times h x) (map (abs_em h) (tc_ems x))) (nth_error (tcs h) t).
+Definition abs_tvar (h : heap) (j : nat) : option (list Q) :=
+  option_map (tl_get h) (nth_error (tvars h) j).
 
 (* operations that never make two references to one droplet object or one record
    ("default settings" in the sense of property C20); the excluded ones alias by design:
@@ -908,21 +933,38 @@ Record spec := mkS {
   s_ems : list (option dtype * list value);         (* every emulsion: dtype, member values *)
   s_tcs : list (list Q * list cid);                 (* time courses: times, emulsions (by number) *)
   s_trs : list (list Q * list value);               (* tracks: times, droplet values *)
-  s_tls : list (list nat)
+  s_tls : list (list nat);
+  s_tvars : list (list Q)                           (* the caller's lists of times *)
 }.
 
 Definition abs (h : heap) : spec :=
   mkS (abs_vals h (hnd h))
       (map (fun e => (e_dtype e, abs_vals h (e_mem e))) (ems h))
-      (map (fun t => (tc_times t, tc_ems t)) (tcs h))
-      (map (fun k => (tr_times k, abs_vals h (tr_drops k))) (trs h))
-      (tls h).
+      (map (fun t => (tc_times h t, tc_ems t)) (tcs h))
+      (map (fun k => (tr_times h k, abs_vals h (tr_drops k))) (trs h))
+      (tls h)
+      (map (tl_get h) (tvars h)).
 
-Definition sp_hnd s x := mkS x (s_ems s) (s_tcs s) (s_trs s) (s_tls s).
-Definition sp_ems s x := mkS (s_hnd s) x (s_tcs s) (s_trs s) (s_tls s).
-Definition sp_tcs s x := mkS (s_hnd s) (s_ems s) x (s_trs s) (s_tls s).
-Definition sp_trs s x := mkS (s_hnd s) (s_ems s) (s_tcs s) x (s_tls s).
-Definition sp_tls s x := mkS (s_hnd s) (s_ems s) (s_tcs s) (s_trs s) x.
+Definition sp_hnd s x := mkS x (s_ems s) (s_tcs s) (s_trs s) (s_tls s) (s_tvars s).
+Definition sp_ems s x := mkS (s_hnd s) x (s_tcs s) (s_trs s) (s_tls s) (s_tvars s).
+Definition sp_tcs s x := mkS (s_hnd s) (s_ems s) x (s_trs s) (s_tls s) (s_tvars s).
+Definition sp_trs s x := mkS (s_hnd s) (s_ems s) (s_tcs s) x (s_tls s) (s_tvars s).
+Definition sp_tls s x := mkS (s_hnd s) (s_ems s) (s_tcs s) (s_trs s) x (s_tvars s).
+Definition sp_tvars s x := mkS (s_hnd s) (s_ems s) (s_tcs s) (s_trs s) (s_tls s) x.
+
+Definition sp_fresh (e : option dtype * list value) : option dtype * list value :=
+  (hd_error (map dtype_of (snd e)), snd e).
+
+(* constructors of the list model: a new time course / track from values *)
+Definition sp_build_tc (s : spec) (es : list (option dtype * list value)) (ts : list Q) : spec * outcome :=
+  if Nat.eqb (length ts) (length es)
+  then (sp_tcs (sp_ems s (s_ems s ++ map sp_fresh es))
+               (s_tcs s ++ [(ts, seq (length (s_ems s)) (length es))]), Ok)
+  else (s, Err EValue).
+Definition sp_build_tr (s : spec) (vs : list value) (ts : list Q) : spec * outcome :=
+  if same_dims vs then
+    if Nat.eqb (length ts) (length vs) then (sp_trs s (s_trs s ++ [(ts, vs)]), Ok) else (s, Err EValue)
+  else (s, Err EValue).
 
 Definition sp_append (s : spec) (c : nat) (v : value) (force : bool) : spec * outcome :=
   match nth_error (s_ems s) c with
@@ -943,9 +985,6 @@ Fixpoint sp_extend (s : spec) (c : nat) (vs : list value) (force : bool) : spec 
 
 Definition sp_new_em (s : spec) (vs : list value) : spec :=
   sp_ems s (s_ems s ++ [(hd_error (map dtype_of vs), vs)]).
-
-Definition sp_fresh (e : option dtype * list value) : option dtype * list value :=
-  (hd_error (map dtype_of (snd e)), snd e).
 
 Definition sp_set_member (s : spec) (c i : nat) (f : value -> option value) : spec * outcome :=
   match nth_error (s_ems s) c with
@@ -1053,12 +1092,7 @@ Definition spec_step (s : spec) (o : op) : spec * outcome :=
   | OTcNew cs times =>
     match mapM (nth_error (s_ems s)) cs with
     | None => (s, Err EIndex)
-    | Some es =>
-      let ts := match times with None => range_q (length es) | Some ts => ts end in
-      if Nat.eqb (length ts) (length es)
-      then (sp_tcs (sp_ems s (s_ems s ++ map sp_fresh es))
-                   (s_tcs s ++ [(ts, seq (length (s_ems s)) (length es))]), Ok)
-      else (s, Err EValue)
+    | Some es => sp_build_tc s es (match times with None => range_q (length es) | Some ts => ts end)
     end
   | OTcAppend t c time _ =>
     match nth_error (s_tcs s) t, nth_error (s_ems s) c with
@@ -1076,11 +1110,7 @@ Definition spec_step (s : spec) (o : op) : spec * outcome :=
     | Some (ts, cs) =>
       match mapM (nth_error (s_ems s)) (slice lo hi cs) with
       | None => (s, Err EDangling)
-      | Some es =>
-        if Nat.eqb (length (slice lo hi ts)) (length es)
-        then (sp_tcs (sp_ems s (s_ems s ++ map sp_fresh es))
-                     (s_tcs s ++ [(slice lo hi ts, seq (length (s_ems s)) (length es))]), Ok)
-        else (s, Err EValue)
+      | Some es => sp_build_tc s es (slice lo hi ts)
       end
     end
   | OTcClear t =>
@@ -1091,12 +1121,7 @@ Definition spec_step (s : spec) (o : op) : spec * outcome :=
   | OTrNew is times =>
     match mapM (nth_error (s_hnd s)) is with
     | None => (s, Err EIndex)
-    | Some vs =>
-      if same_dims vs then
-        let ts := match times with None => range_q (length vs) | Some ts => ts end in
-        if Nat.eqb (length ts) (length vs) then (sp_trs s (s_trs s ++ [(ts, vs)]), Ok)
-        else (s, Err EValue)
-      else (s, Err EValue)
+    | Some vs => sp_build_tr s vs (match times with None => range_q (length vs) | Some ts => ts end)
     end
   | OTrAppend k i time =>
     match nth_error (s_trs s) k, nth_error (s_hnd s) i with
@@ -1113,12 +1138,7 @@ Definition spec_step (s : spec) (o : op) : spec * outcome :=
   | OTrSlice k lo hi =>
     match nth_error (s_trs s) k with
     | None => (s, Err EIndex)
-    | Some (ts, dvs) =>
-      let vs := slice lo hi dvs in
-      if same_dims vs then
-        if Nat.eqb (length (slice lo hi ts)) (length vs) then (sp_trs s (s_trs s ++ [(slice lo hi ts, vs)]), Ok)
-        else (s, Err EValue)
-      else (s, Err EValue)
+    | Some (ts, dvs) => sp_build_tr s (slice lo hi dvs) (slice lo hi ts)
     end
   | OTrGet k i =>
     match nth_error (s_trs s) k with
@@ -1140,8 +1160,43 @@ Definition spec_step (s : spec) (o : op) : spec * outcome :=
       match mapM (nth_error (s_trs s)) ks with
       | None => (s, Err EDangling)
       | Some ts => (sp_tls s (upd (s_tls s) l
-                      (filter_by (map (fun t => negb (Qle_bool (duration (fst t)) q)) ts) ks)), Ok)
+                      (filter_by (map (fun t => keeps_times q (fst t)) ts) ks)), Ok)
       end
+    end
+  | OTcCopy t =>
+    match nth_error (s_tcs s) t with
+    | None => (s, Err EIndex)
+    | Some (ts, cs) =>
+      match mapM (nth_error (s_ems s)) cs with
+      | None => (s, Err EDangling)
+      | Some es => sp_build_tc s es ts
+      end
+    end
+  | OTcNewL cs j =>
+    match mapM (nth_error (s_ems s)) cs, nth_error (s_tvars s) j with
+    | Some es, Some ts => sp_build_tc s es ts
+    | _, _ => (s, Err EIndex)
+    end
+  | OTrCopy k =>
+    match nth_error (s_trs s) k with
+    | None => (s, Err EIndex)
+    | Some (ts, dvs) => sp_build_tr s dvs ts
+    end
+  | OTrNewL is j =>
+    match mapM (nth_error (s_hnd s)) is, nth_error (s_tvars s) j with
+    | Some vs, Some ts => sp_build_tr s vs ts
+    | _, _ => (s, Err EIndex)
+    end
+  | OTlistNew ts => (sp_tvars s (s_tvars s ++ [ts]), Ok)
+  | OTlistAppend j q =>
+    match nth_error (s_tvars s) j with
+    | None => (s, Err EIndex)
+    | Some ts => (sp_tvars s (upd (s_tvars s) j (ts ++ [q])), Ok)
+    end
+  | OTlistSet j i q =>
+    match nth_error (s_tvars s) j with
+    | None => (s, Err EIndex)
+    | Some ts => if i <? length ts then (sp_tvars s (upd (s_tvars s) j (upd ts i q)), Ok) else (s, Err EIndex)
     end
   end.
 
